@@ -75,7 +75,7 @@ CHECKS = {
          "cross-message splices, KW/KWP forgeries built with the reference W function, through decrypt_and_verify and the update/decrypt/verify/hexverify "
          "paths and decryption in place (decrypt(buf, output=buf); verify), plus associated data of 65279..65536 bytes (the boundaries of the modes' length "
          "encodings) with a reduced alphabet. Accept iff the reference tag for the RECEIVED values equals the presented tag; reject must be ValueError. "
-         Messages of 127..4097 bytes (past the native 8-block batch, 16 blocks, a page) go through every path incl. in place (also SIV) with a "
+         "Messages of 127..4097 bytes (past the native 8-block batch, 16 blocks, a page) go through every path incl. in place (also SIV) with a "
          "reduced alphabet. 2.3 M (quick) / 30 M (thorough) tuples.",
          "Trusted: mc/ref/modes.py, aes.py, des.py, chacha.py (self-tested on published vectors). Values from a 4-element alphabet; BLAKE2s comparison-MAC "
          "collisions out of scope.", "DESIGN.md 3/C01"),
